@@ -122,6 +122,23 @@ let () =
         let want = ["ser=1"; "s=" ^ show (List.filter (fun i -> not (to_d i)) (range 0));
                     "d=" ^ show (List.filter to_d (range 0))] in
         Mlutil.print_model want (if outs = want then "ok" else "fail:listener-not-serial-or-not-in-emit-order")
+    | [_; n; fail; rounds] when kind = "mdeliver" ->
+        (* StoreManager.Deliver as coded: for each mailbox in order AddMessage, then the stored event;
+           the first failing AddMessage ends the delivery. Oracle (stored_once / events_match_history):
+           every message that entered a mailbox has exactly one stored event, no stored event names a
+           message that is not there, nothing was deleted *)
+        let n = int_of_string n and fail = int_of_string fail and rounds = int_of_string rounds in
+        let want = (Printf.sprintf "err=%d" (if fail < n then rounds else 0))
+                   :: List.init n (fun i -> if i < fail then Printf.sprintf "r%d:%d:%d:0" i rounds rounds else Printf.sprintf "r%d:0:0:0" i)
+                   @ ["del=0"] in
+        let bad = List.filter (fun t ->
+          match split ':' t with
+          | [r; listed; good; extra] when String.length r > 0 && r.[0] = 'r' -> not (listed = good && extra = "0")
+          | _ -> false) outs in
+        let verdict = match bad with
+          | t :: _ -> "fail:entered-without-stored-event-or-stored-without-message:" ^ t
+          | [] -> if List.mem "del=0" outs then "ok" else "fail:deleted-event-without-departure" in
+        Mlutil.print_model want verdict
     | [j; _] when kind = "collide" ->
         (* FileStore.gen_loop (the hasID loop of fix 0010) run on an index that holds the j ids the next
            j draws would produce: predicts the counter of the id AddMessage returns. The probe counter c
